@@ -9,6 +9,27 @@ ASSUME = ("Trusted base: go/ssa lowering (x/tools v0.29.0, naive form) of /repo'
 
 CLAIMS = {
  # id: (level, text, note(unverified), technique, config)
+ "C08": ("proof",
+   "Mechanism-level proof of the replay that makes a reopen reproduce the state: getMaxFileIDAndFileIDs returns the segment ids sorted ascending with the maximum last; parseDataFiles appends one record per entry read, in file/offset order, whose hint carries the file id, the offset that was read, the entry's own metadata and key (and the entry itself in key-value mode) and records a transaction id as committed only for entries with status Committed; buildHintIdx applies a record if and only if its transaction id is in that set (branch condition proved equivalent, and every applier call site asserted); setActiveFile stamps the active file with MaxFileID.",
+   "Not decided: equivalence of the commit-time and open-time appliers for set/list/sorted-set records (appliers are assumed contracts here), so 'operations that were no-ops at commit time' and SMove are not covered; B+ tree insertion is an assumed contract (bounded stand-in pending).",
+   "contract-based deductive verification (weakest-precondition VCs over go/ssa, z3/cvc5)",
+   {}),
+ "C09": ("proof",
+   "Proved on the real scan loops: getActiveFileWriteOff keeps ActualSize equal to the offset reached (loop invariant) and stops at a nil entry or io.EOF; parseDataFiles treats a read error at or beyond SegmentSize as the end of the segment (branch condition implied by off >= SegmentSize), never dereferences a missing entry, and every decoded entry it keeps went through DataFile.ReadAt's CRC contract (C21); Open's builders are panic-free under the stated preconditions.",
+   "Not decided (known weaknesses of the pinned tree, not expressible with the current file model): an exactly full *active* MMap segment (ErrIndexOutOfBound instead of io.EOF in getActiveFileWriteOff), a torn last record (ErrCrc aborts Open), ReadBucketMeta creating an empty .meta file on a read path, replay errors of set/list appliers. These need a ghost file-content model for RWManager.ReadAt; until then C09 is a partial claim.",
+   "contract-based deductive verification (weakest-precondition VCs over go/ssa, z3/cvc5)",
+   {}),
+ "C19": ("proof",
+   "The places where storage options could change results are under contract: one interface contract for both RWManager implementations is what DataFile.ReadAt / Commit rely on; the hint stored at commit time and at open time is proved to be (file id, offset of the bytes written / read) so that key-only mode reads the bytes key-value mode keeps in RAM; setActiveFile stamps the reopened active file with its id; IsExpired is mode independent and proved equal to the mathematical definition for all 64-bit values; the end-of-segment test of the loader covers the MMap error at an exactly full sealed segment.",
+   "Not decided: that MMapRWManager / FileIORWManager satisfy the interface contract (their bodies are not yet verified - the MMap short read is a known weakness), sparse mode vs RAM modes (C02), SyncEnable (C11).",
+   "contract-based deductive verification (weakest-precondition VCs over go/ssa, z3/cvc5)",
+   {}),
+ "C01": ("proof",
+   "Currently only the expiry rule and the hint discipline are decided: IsExpired(ttl, timestamp) is proved equal to !(ttl == 0 || now < timestamp + ttl) over mathematical integers for every ttl, timestamp and clock value, with no overflow (after the recorded fix); Commit is proved to index every key/value record under the offset and file at which its bytes were just written.",
+   "Not yet under contract: Tx.Get and the scan wrappers (committed/tombstone/expiry filtering), and the B+ tree (ordered-map behaviour needs the bounded stand-in BS1). The claim is therefore partial.",
+   "contract-based deductive verification (weakest-precondition VCs over go/ssa, z3/cvc5)",
+   {}),
+
  "C22": ("proof",
    "DB.checkEntryIdxMode is proved (loop invariants over the directory listing, both directions) to return an error exactly when the directory holds data files together with / without the sparse-index directory in the wrong mode, for every listing; Open is proved to return that error before any further file-system mutation (at most the idempotent MkdirAll of the root precedes it) and never to succeed on a mismatching directory.",
    "Not decided: that sparse directories always contain bpt/ and RAM directories never do (frame over the path helpers), directories left by a crash between MkdirAlls, and 'same contents' when switching between the two RAM modes (that is C19/C08). ioutil.ReadDir, path.Ext/Base, os.MkdirAll and filesystem.PathIsExist are assumed contracts; DB.buildIndexes is an assumed contract (it runs only after the check).",
